@@ -57,3 +57,82 @@ Example C10_ex : isolation_test [MkFixed 0 6; MkGate 1 3 0; Next 1 4; Write 0 2 
                                  DeepCopy 1; Next 2 3; Next 1 5; CachedCall 7 3; Write 4 0 900000002; CachedCall 7 3;
                                  GlobalRandom; MkCar 2; Next 3 2] = true.
 Proof. vm_compute. reflexivity. Qed.
+
+(* ---------- memoisation over MUTABLE argument objects (Determ/ModelMemo.v, Determ/ProofsMemo.v) ----------
+   "Results of the stimulus functions depend only on their arguments": when an argument is a mutable object (a
+   calibration, whose gain can be set after it was used), "arguments" means their CURRENT VALUES.  digest / body are
+   arbitrary: digest = what is computed from the argument values before the memoised call (load_wav: the scaling
+   factor), body = the memoised function proper (_load_wav). *)
+From PV Require Import Determ.ModelMemo Determ.ProofsMemo.
+
+(* the repaired discipline (memo key = digest of the current argument values): in EVERY program - any interleaving
+   of object creation, mutation and calls - every call returns what the un-memoised function returns, i.e. the
+   function of the argument values at the time of the call (C10_no_memo_explicit) *)
+Theorem C10_memo_by_value_pure : forall digest body p,
+  map mobs_val (mrun digest body key_by_value p) = map mobs_val (mrun digest body no_memo p).
+Proof. exact memo_by_value_pure. Qed.
+Print Assumptions C10_memo_by_value_pure.
+
+Theorem C10_no_memo_explicit : forall digest body w f args,
+  snd (mstep digest body no_memo w (Call f args)) =
+  match arg_vals (m_objs w) args with
+  | Some vals => MRes (true_result digest body f vals) (m_next w)
+  | None => MRaised
+  end.
+Proof. exact no_memo_explicit. Qed.
+Print Assumptions C10_no_memo_explicit.
+
+(* ... and memoisation still pays: after any prefix p1, a call and any p2 in between, a call whose argument values
+   have the same digest (same or different objects, mutated or not) is a hit: it returns the very same stored entry
+   (same storage id) and changes nothing *)
+Theorem C10_memo_by_value_hit : forall digest body p1 f a1 p2 a2 v1 v2,
+  let w1 := mexec digest body key_by_value mw0 p1 in
+  let s1 := mstep digest body key_by_value w1 (Call f a1) in
+  let w2 := mexec digest body key_by_value (fst s1) p2 in
+  let s2 := mstep digest body key_by_value w2 (Call f a2) in
+  arg_vals (m_objs w1) a1 = Some v1 -> arg_vals (m_objs w2) a2 = Some v2 ->
+  digest f v1 = digest f v2 ->
+  exists r sid, snd s1 = MRes r sid /\ snd s2 = MRes r sid /\ fst s2 = w2.
+Proof. exact memo_by_value_hit. Qed.
+Print Assumptions C10_memo_by_value_hit.
+
+(* the code before 2334879 (memo key = the argument list, objects compared by identity): NewObj 0; load_wav(level 5,
+   cal); cal.set_fixed_gain(1); load_wav(level 5, cal) returns the waveform for the old gain *)
+Theorem C10_memo_by_identity_refuted :
+  let p := [NewObj 0; Call 0 [AVal 1; AVal 1; AVal 5; ARef 0]; SetState 0 1; Call 0 [AVal 1; AVal 1; AVal 5; ARef 0]] in
+  map mobs_val (wav_run key_by_identity p) <> map mobs_val (wav_run no_memo p) /\
+  wav_run key_by_identity p = [MNothing; MRes 1015005 0; MNothing; MRes 1015005 0] /\
+  wav_run key_by_value p = [MNothing; MRes 1015005 0; MNothing; MRes 1015006 1].
+Proof. exact memo_by_identity_refuted. Qed.
+Print Assumptions C10_memo_by_identity_refuted.
+
+(* the same for ANY function that depends on the object's state at all *)
+Theorem C10_memo_by_identity_stale : forall digest body f v0 v1,
+  true_result digest body f [v0] <> true_result digest body f [v1] ->
+  let p := [NewObj v0; Call f [ARef 0]; SetState 0 v1; Call f [ARef 0]] in
+  mrun digest body key_by_identity p =
+    [MNothing; MRes (true_result digest body f [v0]) 0; MNothing; MRes (true_result digest body f [v0]) 0] /\
+  mrun digest body key_by_value p =
+    [MNothing; MRes (true_result digest body f [v0]) 0; MNothing; MRes (true_result digest body f [v1]) 1] /\
+  mrun digest body no_memo p =
+    [MNothing; MRes (true_result digest body f [v0]) 0; MNothing; MRes (true_result digest body f [v1]) 1].
+Proof. exact memo_by_identity_stale. Qed.
+Print Assumptions C10_memo_by_identity_stale.
+
+(* comparing by identity is right exactly as long as no object is mutated after it was used as an argument of a
+   memoised call (set_before_use: every SetState o _ comes before the first Call that mentions o) *)
+Theorem C10_memo_by_identity_partial : forall digest body p, set_before_use [] p = true ->
+  map mobs_val (mrun digest body key_by_identity p) = map mobs_val (mrun digest body no_memo p).
+Proof. exact memo_by_identity_partial. Qed.
+Print Assumptions C10_memo_by_identity_partial.
+
+Example C10_memo_ex_hit :
+  wav_run key_by_value [NewObj 3; NewObj 2; Call 0 [AVal 1; AVal 1; AVal 5; ARef 0]; SetState 1 3;
+                        Call 0 [AVal 1; AVal 1; AVal 5; ARef 1]; Call 0 [AVal 1; AVal 1; AVal 4; ARef 1]]
+  = [MNothing; MNothing; MRes 1015008 0; MNothing; MRes 1015008 0; MRes 1015007 1].
+Proof. exact memo_hit_ex. Qed.
+
+Example C10_memo_ex_set_before_use :
+  set_before_use [] [NewObj 0; SetState 0 4; Call 0 [AVal 1; AVal 1; AVal 5; ARef 0]; NewObj 1; SetState 1 2;
+                     Call 0 [AVal 1; AVal 1; AVal 5; ARef 1]; Call 0 [AVal 1; AVal 1; AVal 5; ARef 0]] = true.
+Proof. exact set_before_use_ex. Qed.
